@@ -13,6 +13,8 @@ def run(tier, seed):
             grid="seeds x messages {0,1,135,136,137,4096,random} x |ctx| {0,1,32,255} x 4 modes x sk {generated, round-tripped, cloned} x pk {generated, round-tripped, derived, derived-from-round-tripped}")
     common.mc_leg(chk, "MC_API")
     common.mc_leg(chk, "MC_ToySign", tier=tier)
+    # the whole specification (hashing, samplers, codecs, rejection loop) on ring degree 8: staged = literal forms, Verify(Sign) = TRUE
+    common.mc_leg(chk, "MC_SmallN", tier=tier, coverage=False, must_print=["REJECT1 taken", "REJECT2 taken"])
     chk.cov["exhaustive"] = False
     chk.assumptions += ["ideal-functionality judge: a false alarm would need a SHAKE256 collision", "real-size completeness is sampled; the for-all part is the toy exhaustive model check plus the whole-domain scalar lemmas of C15"]
     return chk.finish()
